@@ -40,6 +40,10 @@ func (c *Case) actionText(i int, lang string) string {
 	txt := fmt.Sprintf("vhLogR(%d)", i+1)
 	if i%3 == 1 {
 		txt = "/* rule " + fmt.Sprint(i+1) + " */ " + txt // actions may contain comments of their own
+		if len(r.Rhs) > 0 && c.tagOf(r.Rhs[0]) != "" {
+			// ... and a comment may mention a $n that the code of the action does not use
+			txt = "/* rule " + fmt.Sprint(i+1) + ": $1 is not needed here */ " + txt[len("/* rule "+fmt.Sprint(i+1)+" */ "):]
+		}
 	}
 	if lang == "go" && c.NestRule == i+1 {
 		txt = "vhNest(); " + txt
